@@ -67,6 +67,29 @@ def value(tag, depth, k=None):
     return val.Function(d.hugr)
 
 
+def _serial_types_ok(v):
+    """In the encoded value, every sum node's `typ` is the encoding of the type that value reports (recursively)."""
+    from vrf.oracle.dump import deep_eq, dump
+    if isinstance(v, val.Sum):
+        d = dump(v._to_serial())
+        ok = True
+        if "typ" in d:   # (tuples are written without their type)
+            ok = deep_eq(d["typ"], dump(v.type_()._to_serial()))
+        for x in v.vals:
+            ok = sym.and_(ok, _serial_types_ok(x))
+        return ok
+    if isinstance(v, val.Extension) or hasattr(v, "to_value"):
+        e = v.to_value() if hasattr(v, "to_value") else v
+        d = dump(e._to_serial())
+        ok = deep_eq(d["typ"], dump(v.type_()._to_serial_root()))
+        inner = getattr(v, "v", None)
+        if isinstance(inner, list):
+            for x in inner:
+                ok = sym.and_(ok, _serial_types_ok(x))
+        return ok
+    return True
+
+
 @lemma("C14", params=[(k,) for k in range(10)], unbounded="integer payloads", bounds="one task per outermost value kind; value expressions of nesting depth <= 1 (quick) / 2 (thorough) with <= 2 fields per level over "
                      "bool / unit / unit-sum / int (widths 0..6) / float / string leaves, Tuple / Some / None / Left / Right helpers, arrays, lists and "
                      "static arrays of 0..2 elements, function-valued constants", outside="deeper nesting; raw Sum(tag, typ, vals) with inconsistent arguments",
@@ -89,7 +112,7 @@ def helper_values_inhabit_their_type(kind):
     lop = d.hugr[n].op
     sym.check("load_produces_value_of_that_type", isinstance(lop, ops.LoadConst) and type_equal(lop.type_, t)
               and type_equal(d.hugr.port_type(n.out(0)), t) and type_equal(lop.port_kind(InPort(n, 0)).ty, t))
-    sym.check("encodes", v._to_serial_root() is not None)
+    sym.check("serialized_form_carries_the_reported_type_at_every_level", _serial_types_ok(v))
 
 
 @lemma("C14", unbounded="the integer payload", bounds="all widths 0..6 (symbolic); array / list / static-array constants of 0..3 elements over 4 element kinds")
